@@ -282,4 +282,13 @@ theorem C11_arbitration_generated (D : Desc) (s : St) :
     unsolicitedProcessIoWriteWait s = Gen.unsolicited_process_io_write_wait D s :=
   ⟨processIoWriteWait_generated D s, unsolicitedProcessIoWriteWait_generated D s⟩
 
+/-- the output steps — fetch `write_buf[position]`; at the terminator go from the opening line
+break to the text, from the text to the closing line break (chosen then), from there to the
+state the unit continues in; otherwise offer the byte and advance only if `io->write` took it —
+are, in the model, the text regenerated from `process_io_write` and `unsolicited_process_io_write`
+of the source (translator item T10; the model's ghost check and events marked in the generated text) -/
+theorem C11_output_steps_generated :
+    processIoWrite = Gen.process_io_write ∧ unsolicitedProcessIoWrite = Gen.unsolicited_process_io_write :=
+  ⟨processIoWrite_generated, unsolicitedProcessIoWrite_generated⟩
+
 end Cat
